@@ -431,9 +431,11 @@ class FractionValue:
             return infinity / infinity
 
         def GetFractionalPart(value: float) -> float:
-            str_value = str(value)
-            pos = str_value.find(".")
-            return float("0." + str_value[pos + 1 :])
+            # Note: using Decimal so that values which str() shows in the exponent notation
+            # (i.e.: 1e-05) are also properly handled.
+            from decimal import Decimal
+
+            return float(Decimal(str(value)) % 1)
 
         # The value is None?
         if value is None:
